@@ -16,6 +16,11 @@ C08 applyadj [J…] [pr,pi,qr,qi]                   -> ok [4 numbers]           
 C08 adj     [J…]                                  -> ok [8 numbers]                 Jᴴ
 C08 retarder c s pc ps xc xs                      -> ok [8 numbers]  PhaseRetarder Jones matrix
 C08 polarizer c s                                 -> ok [8 numbers]
+C08 ports tensor c s cq sq pc ps xc xs [E…] [a,b,c,d] -> ok [I1,Q1,U1,V1,I2,Q2,U2,V2,I,Q,U,V]  Stokes vectors of the two ports
+                                                     P(θ)·R·E, P(θ+π/2)·R·E (R = retarder cq sq p x) and of the input
+C08 ports vector c s cq sq pc ps xc xs [E…]           -> ok [12 numbers]
+C08 degrees tensor [J…] [a,b,c,d] | vector [E…] | scalar [er,ei]
+                                                  -> ok [dop², dolp², Q/I, U/I, V/I] | err zero-intensity
 ```
 -/
 namespace HcipyVerif.Driver.C08
@@ -41,7 +46,37 @@ def showJ2 (j : J2 Rat) : String :=
   showRatList [j.a11.re, j.a11.im, j.a12.re, j.a12.im, j.a21.re, j.a21.im, j.a22.re, j.a22.im]
 def showV2 (e : V2 Rat) : String := showRatList [e.x.re, e.x.im, e.y.re, e.y.im]
 
+def showDegrees (s : S4 Rat) : String :=
+  if s.i = 0 then "err zero-intensity" else "ok " ++ showRatList [s.dopSq, s.dolpSq, s.qn, s.un, s.vn]
+
 def step (st : St) : List String → St × String
+  | ["ports", kind, c, s, cq, sq, pc, ps, xc, xs, e, sv] =>
+    match parseRat? c, parseRat? s, parseRat? cq, parseRat? sq, parseRat? pc, parseRat? ps, parseRat? xc, parseRat? xs with
+    | some c, some s, some cq, some sq, some pc, some ps, some xc, some xs =>
+      let r := retarder cq sq ⟨pc, ps⟩ ⟨xc, xs⟩
+      match kind, (parseRatList? e).bind j2?, (parseRatList? sv).bind s4?, (parseRatList? e).bind v2? with
+      | "tensor", some e, some sv, _ =>
+        let pq := splitterPorts c s r e
+        let a := jonesStokes pq.1 sv; let b := jonesStokes pq.2 sv; let i := jonesStokes e sv
+        (st, "ok " ++ showRatList [a.i, a.q, a.u, a.v, b.i, b.q, b.u, b.v, i.i, i.q, i.u, i.v])
+      | "vector", _, _, some e =>
+        let pq := splitterPortsV c s r e
+        let a := vecStokes pq.1; let b := vecStokes pq.2; let i := vecStokes e
+        (st, "ok " ++ showRatList [a.i, a.q, a.u, a.v, b.i, b.q, b.u, b.v, i.i, i.q, i.u, i.v])
+      | _, _, _, _ => (st, "bad-op")
+    | _, _, _, _, _, _, _, _ => (st, "bad-op")
+  | ["degrees", "tensor", j, s] =>
+    match (parseRatList? j).bind j2?, (parseRatList? s).bind s4? with
+    | some j, some s => (st, showDegrees (jonesStokes j s))
+    | _, _ => (st, "bad-op")
+  | ["degrees", "vector", e] =>
+    match (parseRatList? e).bind v2? with
+    | some e => (st, showDegrees (vecStokes e))
+    | _ => (st, "bad-op")
+  | ["degrees", "scalar", e] =>
+    match parseRatList? e with
+    | some [a, b] => (st, showDegrees (scalarStokes ⟨a, b⟩))
+    | _ => (st, "bad-op")
   | ["stokes", j, s] =>
     match (parseRatList? j).bind j2?, (parseRatList? s).bind s4? with
     | some j, some s => (st, "ok " ++ showS4 (jonesStokes j s))
